@@ -20,10 +20,12 @@
 //!   * `HashMap::get_mut` cannot be stubbed by a stand-in (Kani's signature check distinguishes named from elided
 //!     lifetimes; a free function cannot have the elided form).
 //!
-//! Three constructions that make the harnesses affordable (each one measured):
+//! Constructions that make the harnesses affordable / stable (each one measured):
 //!   * std's `RandomState::new()` draws its SipHash keys from the OS (a foreign call): stubbed with fixed keys;
-//!   * `journal` / `logs` live in buffers that come from a `vec![..]` literal (see `new_journaled_state`);
-//!   * shapes are concrete, one per harness (symbolic Vec lengths: > 12 GB); payloads and the fork are symbolic.
+//!   * `journal` / `logs` are pre-sized and CBMC tracks their cells one by one (see `new_journaled_state`);
+//!   * shapes are concrete, one per harness (symbolic Vec lengths: > 12 GB); payloads and the fork are symbolic;
+//!   * the recorder's state is ONE static struct with a magic word (kani-compiler aliased a std constant with a plain
+//!     `static mut usize`, see `Rec`).
 #![allow(static_mut_refs)]
 use crate::journaled_state::{JournalCheckpoint, JournalEntry, JournaledState};
 use crate::primitives::{Address, Bytes, EvmState, HashSet, Log, LogData, SpecId, TransientStorage, U256};
@@ -316,8 +318,9 @@ const NONE: [(usize, usize); 0] = [];
 driver_harness!(driver_1level, 8, [1], 1, 2, 1, NONE, false, 0);
 // an outer frame is open; one committed inner frame; entries on cp's level before AND after the inner frame
 driver_harness!(driver_inner_commit, 8, [1, 1], 1, 1, 1, [(2, 1)], false, 1);
-// two committed inner frames, cp's own level EMPTY, second inner frame empty but logging
-driver_harness!(driver_two_inner, 8, [0], 0, 0, 0, [(1, 0), (0, 1)], false, 0);
+// two committed inner frames, cp's own level EMPTY, first inner frame empty but logging, second with 2 entries
+// (the three levels above the checkpoint hold 0 / 0 / 2 entries: the call order is visible)
+driver_harness!(driver_two_inner, 8, [0], 0, 0, 0, [(0, 1), (2, 0)], false, 0);
 // reverting a level on which nothing happened
 driver_harness!(driver_empty_level, 8, [2], 2, 0, 0, NONE, false, 0);
 // inner frames left open (depth is only decremented once)
